@@ -467,10 +467,61 @@ Section Round.
         rewrite <- ?app_assoc; reflexivity.
   Qed.
 
-  Lemma parse_items : forall b, (forall it, In it b -> item_ok it) ->
-    parse_event py_int (map item_line b) = expected b.
+  Lemma fold_upd_some : forall {A} (f : item -> option A) b acc,
+    acc <> None -> fold_left (upd f) b acc <> None.
   Proof.
-    intros b H. unfold parse_event. rewrite fold_pe_items by exact H. rewrite fold_acc_items. reflexivity.
+    induction b as [|x b IH]; intros acc H; [exact H|]. cbn [fold_left]. apply IH.
+    unfold upd. destruct (f x); [discriminate | exact H].
+  Qed.
+
+  Lemma fold_upd_in : forall {A} (f : item -> option A) b acc it,
+    In it b -> f it <> None -> fold_left (upd f) b acc <> None.
+  Proof.
+    induction b as [|x b IH]; intros acc it Hin Hf; [destruct Hin|]. cbn [fold_left]. destruct Hin as [E|Hin].
+    - subst x. apply fold_upd_some. unfold upd. destruct (f it); [discriminate | contradiction].
+    - apply (IH _ it Hin Hf).
+  Qed.
+
+  Lemma fold_upd_none : forall {A} (f : item -> option A) b,
+    (forall it, In it b -> f it = None) -> fold_left (upd f) b None = None.
+  Proof.
+    induction b as [|x b IH]; intros H; [reflexivity|]. cbn [fold_left]. unfold upd at 2.
+    rewrite (H x (or_introl eq_refl)). apply IH. intros it Hit. apply H. right. exact Hit.
+  Qed.
+
+  Lemma has_field_false : forall b, has_field b = false -> forall it, In it b -> is_field it = false.
+  Proof.
+    intros b H it Hit. destruct (is_field it) eqn:E; [|reflexivity].
+    assert (has_field b = true) by (apply existsb_exists; exists it; split; assumption). congruence.
+  Qed.
+
+  (* _parse_sse_event on the lines of a block: an event iff the block has a field line *)
+  Lemma parse_items : forall b, (forall it, In it b -> item_ok it) ->
+    parse_event py_int (map item_line b) = if has_field b then Some (expected b) else None.
+  Proof.
+    intros b H. unfold parse_event. rewrite fold_pe_items by exact H. rewrite fold_acc_items. cbn [app].
+    change (expected b) with {| e_data := join [c_join] (flat_map f_dt b); e_event := fold_left (upd f_ev) b None;
+                                e_id := fold_left (upd f_id') b None; e_retry := fold_left (upd f_rt) b None |}.
+    destruct (has_field b) eqn:HF.
+    - apply existsb_exists in HF. destruct HF as [it [Hit Hf]].
+      assert (Hany : flat_map f_dt b <> [] \/ fold_left (upd f_ev) b None <> None \/
+                     fold_left (upd f_id') b None <> None \/ fold_left (upd f_rt) b None <> None).
+      { destruct it as [s|s|s|s|s]; [discriminate| | | |].
+        - left. intro E. assert (Hin : In s (flat_map f_dt b)) by (apply in_flat_map; exists (IData s); split; [exact Hit | left; reflexivity]).
+          rewrite E in Hin. destruct Hin.
+        - right. left. apply (fold_upd_in f_ev b None (IEvent s) Hit). discriminate.
+        - right. right. left. apply (fold_upd_in f_id' b None (IId s) Hit). discriminate.
+        - right. right. right. apply (fold_upd_in f_rt b None (IRetry s) Hit). discriminate. }
+      destruct (flat_map f_dt b), (fold_left (upd f_ev) b None), (fold_left (upd f_id') b None),
+        (fold_left (upd f_rt) b None); try reflexivity.
+      exfalso. destruct Hany as [E|[E|[E|E]]]; apply E; reflexivity.
+    - pose proof (has_field_false b HF) as HC.
+      assert (Hd : flat_map f_dt b = []).
+      { clear H HF. induction b as [|x b IH]; [reflexivity|]. cbn [flat_map].
+        rewrite IH by (intros it Hit; apply HC; right; exact Hit).
+        specialize (HC x (or_introl eq_refl)). destruct x; [reflexivity | discriminate ..]. }
+      rewrite Hd, !fold_upd_none; [reflexivity | | |];
+        intros it Hit; specialize (HC it Hit); destruct it; try reflexivity; discriminate.
   Qed.
 
   (* ---- the dispatch loop over the lines of whole blocks ---- *)
@@ -486,24 +537,24 @@ Section Round.
       rewrite IH. rewrite <- app_assoc. reflexivity.
   Qed.
 
-  Definition pe (b : block) : event := parse_event py_int (map item_line b).
+  Definition pe (b : block) : option event := parse_event py_int (map item_line b).
 
   Lemma sse_block : forall b rest, b <> [] ->
-    sse_loop py_int [] (block_lines b ++ rest) = pe b :: sse_loop py_int [] rest.
+    sse_loop py_int [] (block_lines b ++ rest) = olist (pe b) ++ sse_loop py_int [] rest.
   Proof.
     intros b rest Hne. unfold block_lines. rewrite <- app_assoc, sse_loop_items. cbn [app sse_loop].
     destruct b as [|it b]; [contradiction|]. cbn [map]. reflexivity.
   Qed.
 
   Lemma sse_stream : forall bs rest, (forall b, In b bs -> b <> []) ->
-    sse_loop py_int [] (stream_lines bs ++ rest) = map pe bs ++ sse_loop py_int [] rest.
+    sse_loop py_int [] (stream_lines bs ++ rest) = flat_map (fun b => olist (pe b)) bs ++ sse_loop py_int [] rest.
   Proof.
     induction bs as [|b bs IH]; intros rest H; [reflexivity|].
-    unfold stream_lines in *. cbn [map concat]. rewrite <- app_assoc, sse_block by (apply H; left; reflexivity).
+    unfold stream_lines in *. cbn [map concat flat_map]. rewrite <- !app_assoc, sse_block by (apply H; left; reflexivity).
     rewrite IH by (intros x Hx; apply H; right; exact Hx). reflexivity.
   Qed.
 
-  Lemma sse_last_block : forall b, b <> [] -> sse_loop py_int [] (map item_line b) = [pe b].
+  Lemma sse_last_block : forall b, b <> [] -> sse_loop py_int [] (map item_line b) = olist (pe b).
   Proof.
     intros b Hne. rewrite <- (app_nil_r (map item_line b)), sse_loop_items. cbn [app sse_loop].
     destruct b; [contradiction | reflexivity].
@@ -516,8 +567,7 @@ Section Round.
 
   Lemma guard_blocks : forall bs, guard bs = true -> forall b, In b bs -> good_block b = true.
   Proof.
-    intros bs H b Hb. unfold guard in H. apply andb_true_iff in H. destruct H as [H _].
-    apply andb_true_iff in H. destruct H as [Hd Ha].
+    intros bs H b Hb. unfold guard in H. apply andb_true_iff in H. destruct H as [Hd Ha].
     unfold guard_dom in Hd. unfold guard_F18a in Ha.
     rewrite forallb_forall in Hd, Ha. specialize (Hd b Hb). specialize (Ha b Hb).
     apply andb_true_iff in Hd. destruct Hd as [Hne Hd].
@@ -590,12 +640,22 @@ Section Round.
     unfold block_lines. rewrite app_assoc. reflexivity.
   Qed.
 
-  Lemma pe_expected : forall bs, (forall b, In b bs -> good_block b = true) -> map pe bs = map expected bs.
+  Lemma block_items_ok : forall b, good_block b = true -> forall it, In it b -> item_ok it.
   Proof.
-    intros bs H. apply map_ext_in. intros b Hb. unfold pe. apply parse_items.
-    intros it Hit. apply good_item_ok. specialize (H b Hb). unfold good_block in H.
+    intros b H it Hit. apply good_item_ok. unfold good_block in H.
     apply andb_true_iff in H. destruct H as [_ H]. rewrite forallb_forall in H. apply H. exact Hit.
   Qed.
+
+  Lemma pe_expected : forall bs, (forall b, In b bs -> good_block b = true) ->
+    flat_map (fun b => olist (pe b)) bs = spec_events bs.
+  Proof.
+    induction bs as [|b bs IH]; intros H; [reflexivity|]. cbn [flat_map]. unfold spec_events in *. cbn [filter].
+    unfold pe at 1. rewrite parse_items by (apply block_items_ok; apply H; left; reflexivity).
+    rewrite IH by (intros x Hx; apply H; right; exact Hx). destruct (has_field b); reflexivity.
+  Qed.
+
+  Lemma spec_events_app : forall a b, spec_events (a ++ b) = spec_events a ++ spec_events b.
+  Proof. intros a b. unfold spec_events. rewrite filter_app, map_app. reflexivity. Qed.
 
   Lemma good_nonempty : forall bs, (forall b, In b bs -> good_block b = true) -> forall b, In b bs -> b <> [].
   Proof. intros bs H b Hb E. specialize (H b Hb). subst b. discriminate. Qed.
@@ -604,7 +664,7 @@ Section Round.
      stream ends (after the blank line, after the last line's terminator, or right after the last line),
      the events come back: data lines joined by "\n", comments ignored, last event/id/retry win. *)
   Theorem sse_roundtrip_text : forall t k bs, guard bs = true ->
-    sse_of_lines py_int (splitlines (encode t k bs)) = map expected bs.
+    sse_of_lines py_int (splitlines (encode t k bs)) = spec_events bs.
   Proof.
     intros t k bs G. pose proof (guard_blocks bs G) as HB. unfold sse_of_lines.
     destruct k; cbn [encode].
@@ -619,10 +679,8 @@ Section Round.
         by (apply all_clean_app; [apply stream_lines_clean; exact HB0 | apply block_lines_clean; exact Hb0]).
       rewrite sse_stream by (apply good_nonempty; exact HB0).
       rewrite sse_last_block by (intro E; subst b0; discriminate).
-      rewrite map_app. cbn [map]. rewrite (pe_expected bs0 HB0). f_equal. f_equal.
-      unfold pe. apply parse_items. intros it Hit. apply good_item_ok.
-      unfold good_block in Hb0. apply andb_true_iff in Hb0. destruct Hb0 as [_ Hb0].
-      rewrite forallb_forall in Hb0. apply Hb0. exact Hit.
+      rewrite spec_events_app, (pe_expected bs0 HB0). f_equal.
+      rewrite <- (pe_expected [b0]) by (intros x [E|[]]; subst x; exact Hb0). cbn [flat_map]. rewrite app_nil_r. reflexivity.
     - destruct bs as [|b0 bs0] using rev_ind; [reflexivity|]. clear IHbs0.
       rewrite stream_lines_snoc, removelast_last.
       assert (HB0 : forall b, In b bs0 -> good_block b = true) by (intros x Hx; apply HB; apply in_or_app; left; exact Hx).
@@ -631,10 +689,8 @@ Section Round.
       rewrite splitlines_join.
       + rewrite sse_stream by (apply good_nonempty; exact HB0).
         rewrite sse_last_block by exact Hne.
-        rewrite map_app. cbn [map]. rewrite (pe_expected bs0 HB0). f_equal. f_equal.
-        unfold pe. apply parse_items. intros it Hit. apply good_item_ok.
-        unfold good_block in Hb0. apply andb_true_iff in Hb0. destruct Hb0 as [_ Hb0].
-        rewrite forallb_forall in Hb0. apply Hb0. exact Hit.
+        rewrite spec_events_app, (pe_expected bs0 HB0). f_equal.
+        rewrite <- (pe_expected [b0]) by (intros x [E|[]]; subst x; exact Hb0). cbn [flat_map]. rewrite app_nil_r. reflexivity.
       + apply all_clean_app; [apply stream_lines_clean; exact HB0 | apply block_lines_clean; exact Hb0].
       + destruct b0 as [|it b0 _] using rev_ind; [contradiction|].
         rewrite map_app. cbn [map]. rewrite app_assoc, last_last.
@@ -770,18 +826,6 @@ Proof. intros s H. unfold utf8_decode. rewrite u_run_encode by exact H. cbn [u_f
 Theorem utf8_wf_strict : forall bs p s, u_strict [] bs = Some (p, s) -> utf8_decode bs = s ++ u_flush p.
 Proof. intros bs p s H. unfold utf8_decode. rewrite (strict_replace bs [] (p, s) eq_refl H). reflexivity. Qed.
 
-Lemma filter_all : forall {A} (f : A -> bool) l, forallb f l = true -> filter f l = l.
-Proof.
-  induction l as [|x l IH]; intros H; [reflexivity|]. cbn [forallb filter] in *.
-  apply andb_true_iff in H. destruct H as [Hx Hl]. rewrite Hx, IH by exact Hl. reflexivity.
-Qed.
-
-Lemma spec_events_guard : forall bs, guard bs = true -> spec_events bs = map expected bs.
-Proof.
-  intros bs G. unfold guard in G. apply andb_true_iff in G. destruct G as [_ G].
-  unfold spec_events. unfold guard_F18c in G. rewrite filter_all by exact G. reflexivity.
-Qed.
-
 (* byte level, any chunking: if the stream is the UTF-8 encoding of what the sender wrote, the events come back *)
 Theorem sse_roundtrip : forall (py_int : str -> option Z),
   (forall ds, ds <> [] -> forallb is_digit ds = true -> py_int ds = Some (digits_val ds)) ->
@@ -790,12 +834,12 @@ Theorem sse_roundtrip : forall (py_int : str -> option Z),
   iter_sse py_int cs = spec_events bs /\
   iter_sse_events_text py_int cs = filter nonemptyb (map e_data (spec_events bs)).
 Proof.
-  intros py_int Hint t k bs cs G H. rewrite (spec_events_guard bs G).
-  assert (E : iter_sse py_int cs = map expected bs).
+  intros py_int Hint t k bs cs G H.
+  assert (E : iter_sse py_int cs = spec_events bs).
   { unfold iter_sse. rewrite aiter_lines_stream, H.
     apply (sse_roundtrip_text py_int Hint t k bs G). }
   split; [exact E|]. unfold iter_sse_events_text. rewrite E. unfold events_text. clear E.
-  induction (map expected bs) as [|e es IH]; [reflexivity|]. cbn [filter map].
+  induction (spec_events bs) as [|e es IH]; [reflexivity|]. cbn [filter map].
   destruct (nonemptyb (e_data e)); cbn [map]; rewrite IH; reflexivity.
 Qed.
 
@@ -913,16 +957,18 @@ Definition bs_F18a : list block := [[IData [97; 8232; 98]]].      (* data: a<U+2
 Definition bs_F18b : list block := [[IData [32; 120]]].           (* data:  x  (payload " x") *)
 
 Lemma refuted_F18a :
-  guard_dom bs_F18a = true /\ guard_F18a bs_F18a = false /\ guard_F18c bs_F18a = true /\
+  guard_dom bs_F18a = true /\ guard_F18a bs_F18a = false /\
   forall py_int, sse_of_lines py_int (splitlines (encode LF TFull bs_F18a)) <> spec_events bs_F18a.
 Proof. repeat split; try (vm_compute; reflexivity). intros py_int H. vm_compute in H. discriminate H. Qed.
 
-(* F18c: ": keep-alive" blank "data: x" blank — the comment-only block is delivered as an event with empty data *)
+(* F18c is fixed: ": keep-alive" blank "data: x" blank delivers exactly one event; a comment-only stream delivers none *)
 Definition bs_F18c : list block := [[IComment [32; 107; 97]]; [IData [120]]].
-Lemma refuted_F18c :
-  guard_dom bs_F18c = true /\ guard_F18a bs_F18c = true /\ guard_F18c bs_F18c = false /\
-  forall py_int, sse_of_lines py_int (splitlines (encode LF TFull bs_F18c)) <> spec_events bs_F18c.
-Proof. repeat split; try (vm_compute; reflexivity). intros py_int H. vm_compute in H. discriminate H. Qed.
+Lemma regression_F18c : forall py_int,
+  guard bs_F18c = true /\
+  sse_of_lines py_int (splitlines (encode LF TFull bs_F18c)) = spec_events bs_F18c /\
+  length (spec_events bs_F18c) = 1%nat /\
+  sse_of_lines py_int (splitlines (encode CRLF TLine [[IComment []]])) = [].
+Proof. intros py_int. repeat split; vm_compute; reflexivity. Qed.
 
 (* F18b is fixed: the former witnesses (payload " x" sent as `data:  x`; TAB / NBSP / ideographic-space first) meet the
    guard and come back unchanged, for every int() *)
